@@ -32,5 +32,48 @@ fn main() {
     writeln!(out, "];").unwrap();
     let dest = std::path::Path::new(&std::env::var("OUT_DIR").unwrap()).join("wrappers_gen.rs");
     std::fs::write(dest, out).unwrap();
+
+    // Every key-like string literal of the library's sources ("sv_maxclients", "GamePassword", ...): names the code under
+    // test may give a meaning to. Responses are also built with all of them present as otherwise uninterpreted entries
+    // (C15), so a view that quietly consults one of them shows.
+    let mut keys: std::collections::BTreeSet<String> = std::collections::BTreeSet::new();
+    fn walk(dir: &std::path::Path, keys: &mut std::collections::BTreeSet<String>) {
+        let Ok(rd) = std::fs::read_dir(dir) else { return };
+        for e in rd.flatten() {
+            let p = e.path();
+            if p.is_dir() {
+                walk(&p, keys);
+            } else if p.extension().is_some_and(|x| x == "rs") {
+                println!("cargo:rerun-if-changed={}", p.display());
+                let text = std::fs::read_to_string(&p).unwrap_or_default();
+                for line in text.lines() {
+                    let code = line.trim_start();
+                    if code.starts_with("//") || code.starts_with("#[") {
+                        continue;
+                    }
+                    let mut parts = line.split('"');
+                    parts.next();
+                    while let Some(lit) = parts.next() {
+                        if (3 ..= 32).contains(&lit.len())
+                            && lit.chars().all(|c| c.is_ascii_alphanumeric() || c == '_')
+                            && lit.chars().next().is_some_and(|c| c.is_ascii_alphabetic())
+                        {
+                            keys.insert(lit.to_string());
+                        }
+                        parts.next();
+                    }
+                }
+            }
+        }
+    }
+    walk(std::path::Path::new("/repo/crates/lib/src/protocols"), &mut keys);
+    walk(std::path::Path::new("/repo/crates/lib/src/games"), &mut keys);
+    let mut out = String::from("pub static MAGIC_KEYS: &[&str] = &[\n");
+    for k in &keys {
+        writeln!(out, "    \"{k}\",").unwrap();
+    }
+    out.push_str("];\n");
+    let dest = std::path::Path::new(&std::env::var("OUT_DIR").unwrap()).join("magic_keys_gen.rs");
+    std::fs::write(dest, out).unwrap();
     println!("cargo:rerun-if-changed=build.rs");
 }
